@@ -517,6 +517,12 @@ impl<'tcx> Cx<'tcx> {
             o.put("fn", self.resolve_fn(owner, *did, args));
             return o;
         }
+        if let mir::Const::Ty(_, ct) = c.const_ {
+            if let ty::ConstKind::Param(p) = ct.kind() {
+                // a const generic parameter used as a value: the evaluator substitutes the instance's argument
+                o.put("param", J::s(p.name.to_string()));
+            }
+        }
         if let mir::Const::Unevaluated(uv, _) = c.const_ {
             o.put("item", J::s(defpath(tcx, uv.def)));
             o.put("item_key", J::s(defkey(tcx, uv.def)));
